@@ -358,6 +358,30 @@ def run(ck):
                      required="q.position - (r.position - seed)")
             ck.judge(r[0] == "elem" and r[1] == V(pR), "C12.1", short(cand_fn) + ":every-reference-label", we,
                      "every reference label of the window is offered candidates", found=T.show(r)[:80])
+            # ... unconditionally: a test on the reference label in front of the scan decides which labels get candidates at all
+            for c0, tv0, n0 in pa.state.assumptions:
+                parts = list(c0[1]) if c0[0] in ("and", "or") else [c0]
+                for c1 in parts:
+                    if not any(x == r for x in T.subterms(c1)):
+                        continue
+                    rp = T.mk_attr(r, "position")
+                    units_mixed = False
+                    if c1[0] in ("lt", "le") and c1[1][0] == "poly":
+                        items = dict(T.to_poly(c1[1]))
+                        a_r = items.get((rp,), 0)
+                        a_s = items.get((V(pS),), 0)
+                        q_pos = [k for k in items if len(k) == 1 and k[0][0] == "attr" and k[0][2] == "position" and
+                                 any(y == V(pQ) for y in T.subterms(k[0]))]
+                        units_mixed = a_r != 0 and a_s == 0 and bool(q_pos)
+                    if units_mixed:
+                        ck.violation("C12.1", short(cand_fn) + ":every-reference-label:guard", where(cand_fn, n0),
+                                     "a reference label is skipped by comparing its reference coordinate with query coordinates - which are "
+                                     "relative to the seed: for a negative seed, labels exactly on the diagonal get no candidates and "
+                                     "mutual nearest neighbours stay unpaired", found=T.show(c1)[:200],
+                                     required="no test, or one on reference position - seed")
+                    else:
+                        raise AnalysisError(f"{where(cand_fn, n0)}: a condition on the reference label in front of the candidate scan is "
+                                            f"not understood: {T.show(c1)[:160]}")
             if q[0] != "elem":
                 raise AnalysisError(f"{we}: query candidate is not drawn from a window")
             win = as_window(q[1])
